@@ -124,6 +124,8 @@ func c16Exec(k c16Case, doc []byte) c16Out {
 	case "ndjson-line":
 		limit = 0
 		in = append(append([]byte("{\"a\":1}\n"), doc...), "\n[2]\n"...)
+	case "reader1-8m":
+		limit = 8 << 20
 	}
 	done := make(chan c16Out, 1)
 	release := make(chan struct{})
@@ -140,6 +142,8 @@ func c16Exec(k c16Case, doc []byte) c16Out {
 			var m *mimetype.MIME
 			if k.Mode == "reader0" {
 				m, _ = mimetype.DetectReader(bytes.NewReader(in))
+			} else if k.Mode == "reader1-8m" {
+				m, _ = mimetype.DetectReader(iotest1{bytes.NewReader(in)}) // one byte per Read: millions of Read calls
 			} else {
 				m = mimetype.Detect(in)
 			}
@@ -275,7 +279,10 @@ func c16Repeats(c *fw.Ctx, b fw.Batch) {
 		// of one table, doubled quotes of one CSV cell (a scanner that calls itself "for the rest")
 		framed := [][3]string{{`["`, `\n`, `"]`}, {`["`, `\u0041`, `"]`}, {`["`, `\\`, `"]`}, {`["`, `\"`, `"]`}, {`{"`, `\t`, `":1}`}, {`[`, `1,`, `1]`}, {`[`, `"a",`, `"a"]`}, {`[`, `{},`, `{}]`}, {`{"a":"b"`, `,"a":"b"`, `}`},
 			{`<!--`, `-`, `-->`}, {`<!--`, `--`, `>`}, {`<html `, `a=b `, `>`}, {`<meta `, `charset `, `>`}, {`<meta content="`, `charset `, `">`}, {`<?xml `, `a="b" `, `?>`}, {`<a>`, `&amp;`, `</a>`},
-			{"a,b\n", "1,2\n", ""}, {"a\tb\n", "1\t2\n", ""}, {`a,"`, `""`, "\"\n1,2\n"}, {"{\"a\":1}\n", "[1]\n", ""}, {"#!/bin/sh\n", "#\n", ""}, {"BEGIN:VCARD\n", "N:x\n", "END:VCARD\n"}, {"WEBVTT\n\n", "1\n", ""}}
+			{"a,b\n", "1,2\n", ""}, {"a\tb\n", "1\t2\n", ""}, {`a,"`, `""`, "\"\n1,2\n"}, {"{\"a\":1}\n", "[1]\n", ""}, {"#!/bin/sh\n", "#\n", ""}, {"BEGIN:VCARD\n", "N:x\n", "END:VCARD\n"}, {"WEBVTT\n\n", "1\n", ""},
+			// nesting constructs of other formats behind their magic numbers
+			{"d8:announce", "l", ""}, {"d8:announce", "d1:a", ""}, {"d8:announce3:urlli0e", "li0e", ""}, {"%PDF-1.7\n1 0 obj\n", "<<", ""}, {"%PDF-1.7\n1 0 obj\n", "[", ""}, {"%!PS-Adobe-3.0\n", "{", ""}, {"{\\rtf1", "{", ""}, {"{\\rtf1", "{\\b ", ""},
+			{"<?xml version=\"1.0\"?>", "<a>", ""}, {"<html>", "<div>", ""}, {"<svg>", "<g>", ""}, {"(", "(", ""}, {"#!/usr/bin/env python\n", "(", ""}, {"<?php ", "(", ""}, {"\x1a\x45\xdf\xa3", "\x1a\x45\xdf\xa3\x81", ""}, {"\x00\x00\x00\x18ftypmp42", "\x00\x00\x00\x08moov", ""}}
 		for _, fr := range framed {
 			u := []byte(fr[1])
 			rk := c16Case{Shape: "repeat", Prefix: fr[0], Unit: u, Tail: fr[2], Depth: 8192, Mode: "limit0", Primer: "none"}
@@ -295,6 +302,23 @@ func c16Repeats(c *fw.Ctx, b fw.Batch) {
 					c16Judge(c, c16Case{Shape: "repeat", Prefix: fr[0], Unit: u, Depth: n, Tail: tail, Mode: mode, Primer: "none"}, refKB, doc)
 				}
 			}
+		}
+	}
+	if b.Idx == 0 {
+		// the reader path with millions of one-byte reads under a limit of 8 MiB
+		for _, u := range [][]byte{[]byte("["), []byte("a"), {0}} {
+			rk := c16Case{Shape: "repeat", Unit: u, Depth: 8192, Mode: "reader1-8m", Primer: "none"}
+			out := c16Exec(rk, c16Doc(rk))
+			runtime.GC()
+			refKB[rk.refKey()] = out.incKB
+			if refKB[rk.refKey()] < 64 {
+				refKB[rk.refKey()] = 64
+			}
+			n := 9 << 20
+			if c.Tier != "thorough" {
+				n = 5 << 20
+			}
+			c16Judge(c, c16Case{Shape: "repeat", Unit: u, Depth: n, Mode: "reader1-8m", Primer: "none"}, refKB, nil)
 		}
 	}
 	lo, hi := split(len(units), b.Idx, b.Of)
